@@ -161,6 +161,11 @@ def add_evidence(items, edits, history):
         if e['op'] == 'rename_model':
             renamed.add((e['app'], e['old']))
             renamed.add((e['app'], e['new']))
+        if e['op'] == 'rename_app':
+            for (a2, m2) in list(renamed):
+                if a2 == e['app'] and (e.get('model_names') is None or
+                                       m2 in e['model_names']):
+                    renamed.add((e['new_app'], m2))
         if e['op'] == 'change_field' and 'db_column' in e['attrs'] and (
                 'db_index' in e['attrs'] or 'unique' in e['attrs']):
             combo_tables.add(S.model_table(before, e['app'], e['model']))
@@ -183,6 +188,11 @@ def add_evidence(items, edits, history):
         if e['op'] == 'rename_model':
             seen_names[(e['app'], e['new'])] = seen_names.pop(
                 (e['app'], e['old']), set())
+        if e['op'] == 'rename_app':
+            for (a2, m2) in list(seen_names):
+                if a2 == e['app'] and (e.get('model_names') is None or
+                                       m2 in e['model_names']):
+                    seen_names[(e['new_app'], m2)] = seen_names.pop((a2, m2))
         new_name = e.get('name') if e['op'] == 'add_field' else (
             e.get('new') if e['op'] == 'rename_field' else None)
         if new_name:
